@@ -41,6 +41,8 @@ class Check:
             p = run(["lake", "build"] + modules + ["model"], cwd=LEAN_DIR)
             build_ok = p.returncode == 0
             if not build_ok:
+                # the driver does not depend on the theorems: keep it current so that the search for a failing input can run
+                run(["lake", "build", "model"], cwd=LEAN_DIR)
                 errs = [l for l in (p.stdout + p.stderr).splitlines() if "error" in l][:12]
                 self.problems.append(("proof", "lake build failed for %s: %s" % (modules, " | ".join(errs))))
             if build_ok and self.tier == "thorough":
